@@ -194,7 +194,7 @@ theorem disk_commit (W b : Nat) (t : Table K V) (nd : AMap.Nodup t.cache) (k : K
 
 /-- In the window of `b`, what `commit b` leaves on disk says what the effective histories said. -/
 theorem valAt_disk_commit (W b : Nat) {t : Table K V} {top : Nat} (nd : AMap.Nodup t.cache)
-    (hc : ∀ k h, t.cache.get? k = some h → Ok h top) (k : K) {m : Nat} (hm : b ≤ m + W) :
+    (hc : ∀ k h, t.cache.get? k = some h → Ok h top) (k : K) {m : Nat} (hm : b ≤ m + W + 1) :
     valAt (disk (t.commit W b) k) m = valAt (eff t k) m := by
   rw [disk_commit W b t nd k]
   cases hg : t.cache.get? k with
@@ -204,7 +204,7 @@ theorem valAt_disk_commit (W b : Nat) {t : Table K V} {top : Nat} (nd : AMap.Nod
     rw [eff_cached hg]
     cases ho : h.isOld W b with
     | false => simp
-    | true => simp only [if_true]; rw [valAt_new, isOld_const (hc k h hg) ho hm]
+    | true => simp only [if_true]; rw [valAt_new, isOld_const' (hc k h hg) ho hm]
 
 theorem inv_commit (W b : Nat) {t : Table K V} {top : Nat} (nd : AMap.Nodup t.cache)
     (hc : ∀ k h, t.cache.get? k = some h → Ok h top)
@@ -233,14 +233,14 @@ theorem latest_commit (W b : Nat) (t : Table K V) (nd : AMap.Nodup t.cache) (k :
   cases t.cache.get? k <;> rfl
 
 theorem sim_commit {W : Nat} {t : Table K V} {s : TSpec K V} (h : Sim W t s) (b : Nat) :
-    Sim W (t.commit W b) { s with dur := s.cur, maxEver := max s.maxEver b } := by
+    Sim W (t.commit W b) { s with dur := s.cur, maxEver := max s.maxEver (b - 1) } := by
   have nd := h.inv.cache_nodup
-  have key : ∀ k m, max s.maxEver b ≤ m + W → valAt (disk (t.commit W b) k) m = valAt (s.cur k) m := by
+  have key : ∀ k m, max s.maxEver (b - 1) ≤ m + W → valAt (disk (t.commit W b) k) m = valAt (s.cur k) m := by
     intro k m hm
     rw [valAt_disk_commit W b nd h.inv.cache_ok k (by omega), h.cur_eq k m (by omega)]
   refine ⟨?_, h.cur_ok, h.cur_ok, ?_, ?_, ?_⟩
   · exact inv_commit W b nd h.inv.cache_ok (fun k h0 _ hg => h.inv.cdb_ok k h0 hg)
-  · show s.top ≤ max s.maxEver b
+  · show s.top ≤ max s.maxEver (b - 1)
     have := h.top_le; omega
   · intro k m hm
     rw [eff_commit]; exact key k m hm
